@@ -69,6 +69,7 @@ type tcpConsumer struct {
 	closed    bool
 	closeOnce sync.Once // Close 可能同时被消费协程（发送失败）和会话协程（连接断开）调用
 	source    *media.Stream
+	cidLock   sync.Mutex // cid 在 StartConsume 返回后才赋值，而消费协程此前就可能因发送失败调用 Close
 	cid       media.CID
 }
 
@@ -109,7 +110,13 @@ func (c *tcpConsumer) Consume(p Pack) {
 func (c *tcpConsumer) Close() error {
 	c.closeOnce.Do(func() {
 		c.closed = true
-		c.source.StopConsume(c.cid)
+		// wait until StartConsume has returned the id: a write error on the very first
+		// (replayed) packet gets here before the session goroutine has stored it, and
+		// StopConsume(0) would leave the consumption registered until the stream ends
+		c.cidLock.Lock()
+		cid := c.cid
+		c.cidLock.Unlock()
+		c.source.StopConsume(cid)
 	})
 	return nil
 }
@@ -243,7 +250,9 @@ func (s *Session) asTCPConsumer(stream *media.Stream, resp *Response) (err error
 	// if s.wsconn != nil {
 	// 	c.cid = stream.StartConsumeNoGopCache(s, media.RTPPacket, "net=rtsp-websocket")
 	// } else {
+	c.cidLock.Lock()
 	c.cid = stream.StartConsume(s, media.RTPPacket, "net=rtsp-tcp")
+	c.cidLock.Unlock()
 	// }
 	return
 }
